@@ -4,6 +4,10 @@
 # independent sub-agents from the property text only) in a scratch worktree of /repo HEAD and runs
 # all 20 static checks on it. Expected: silence. Prints one line per refactoring; exit 1 on an alarm.
 set -u
+# a private build cache, removed at the end: every scratch worktree has its own path, and a shared
+# cache grows by gigabytes per hundred worktrees
+export GOCACHE=${GOCACHE_REGRESS:-/tmp/gocache-regress-$$}
+trap 'rm -rf $GOCACHE' EXIT
 IDS="${*:-$(ls ${VERIF_HOME:-/verif}/refactors | sort)}"
 bad=0
 for id in $IDS; do
